@@ -11,9 +11,12 @@ import (
 	"fmt"
 	"sort"
 	"strings"
+	"sync"
 
 	"github.com/AdguardTeam/urlfilter"
 	"github.com/AdguardTeam/urlfilter/filterlist"
+	"github.com/AdguardTeam/urlfilter/filterutil"
+	"github.com/AdguardTeam/urlfilter/lookup"
 	"github.com/AdguardTeam/urlfilter/rules"
 )
 
@@ -29,6 +32,39 @@ var (
 	}
 	c01Short = []string{"ad", "/ad", "ads", "/a/", "^ad^", "x", "_", "/b?", ".js", "pop", "|ws", "ws:", "wss:", "|http", "http", "|https://", "|http://", "https:/", "|ws://", "ws://", "|wss:/"}
 )
+
+// c01WindowCollisions returns pairs of distinct 5-letter strings with equal
+// FastHash (found once by a deterministic birthday search): a rule whose whole
+// shortcut is one of them shares its bucket with URLs containing the other.
+var (
+	c01CollOnce  sync.Once
+	c01CollCache [][2]string
+)
+
+func c01WindowCollisions() [][2]string {
+	c01CollOnce.Do(func() {
+		seen := map[uint32]string{}
+		letters := "abcdefghijklmnopqrstuvwxyz"
+		x := uint64(987654321)
+		n := lookup.VerifShortcutLength
+		for i := 0; i < 900000 && len(c01CollCache) < 16; i++ {
+			b := make([]byte, n)
+			for j := range b {
+				x = x*6364136223846793005 + 1442695040888963407
+				b[j] = letters[(x>>33)%26]
+			}
+			w := string(b)
+			h := filterutil.FastHash(w)
+			if o, ok := seen[h]; ok && o != w {
+				c01CollCache = append(c01CollCache, [2]string{o, w})
+			} else {
+				seen[h] = w
+			}
+		}
+	})
+
+	return c01CollCache
+}
 
 // c01GenRuleText: the rule kinds named by the property.
 func c01GenRuleText(r *rng) string {
@@ -68,6 +104,12 @@ func c01GenRuleText(r *rng) string {
 		}
 
 		return t
+	case 7: // a rule whose only window collides (djb2) with an unrelated window
+		if cs := c01WindowCollisions(); len(cs) > 0 {
+			return pick(r, cs)[r.n(2)] + pick(r, []string{"", "$script", "$domain=example.org"})
+		}
+
+		return "/banner"
 	case 6: // regex rules (with and without usable shortcut)
 		return pick(r, []string{"/banner[0-9]+/", "/ad[0-9]+|banner/", `/advert\.js/`, "/^https?:\\/\\/ads\\./", "/x/"})
 	default:
@@ -169,11 +211,46 @@ func c01URL(r *rng, sc *c01Scenario) string {
 	}
 }
 
+// c01Source picks a source URL; for a rule with permitted domains mostly one
+// of them, a subdomain of one, or a concrete TLD for a wildcard domain.
+func c01Source(r *rng, f *rules.NetworkRule) string {
+	pd := f.GetPermittedDomains()
+	if len(pd) == 0 || r.chance(1, 4) {
+		return genSourceURL(r)
+	}
+	d := pick(r, pd)
+	if strings.HasSuffix(d, ".*") {
+		d = strings.TrimSuffix(d, "*") + pick(r, []string{"com", "co.uk", "de", "org", "notatld"})
+	}
+
+	return pick(r, []string{"http://", "https://"}) + pick(r, []string{"", "", "www.", "a.b."}) + d + pick(r, []string{"", "/", "/page"})
+}
+
 func c01Request(r *rng, sc *c01Scenario) *rules.Request {
-	if r.chance(1, 5) {
+	if r.chance(1, 6) {
 		return hostnameRequest(genDNSRequest(r, sc.texts))
 	}
-	q := rules.NewRequest(c01URL(r, sc), genSourceURL(r), pick(r, poolReqTypes))
+	f := pick(r, sc.nets)
+	var u string
+	switch r.n(5) {
+	case 0, 1:
+		t := f.RuleText
+		if i := strings.LastIndex(t, "$"); i > 0 {
+			t = t[:i]
+		}
+		u = urlAround(r, t)
+	case 2:
+		if cs := c01WindowCollisions(); len(cs) > 0 && r.chance(1, 3) {
+			p := pick(r, cs)
+			u = "http://" + pick(r, poolDomains) + "/" + p[r.n(2)] + pick(r, []string{"", "/", p[r.n(2)]})
+
+			break
+		}
+		u = c01URL(r, sc)
+	default:
+		u = c01URL(r, sc)
+	}
+	q := rules.NewRequest(u, c01Source(r, f), pick(r, poolReqTypes))
 	if r.chance(1, 6) {
 		q.SortedClientTags = genSortedTags(r)
 		q.ClientName = pick(r, append([]string{""}, poolClientNames...))
